@@ -87,11 +87,25 @@ def check(ck):
                    "connection keeps its broken state and every later call fails" % ci.name, q.loc(fcl, fcl.node))
 
     # ---- C19.2 only 200 is parsed ---------------------------------------------------------------------
+    def own_status(node, e):
+        """e is <the response obtained from getresponse()>.status"""
+        if not (isinstance(e, ast.Attribute) and e.attr == "status"):
+            return False
+        t = prov.origin(g, node, e.value)
+        return all(a[0] == "call" and a[1][0] == "attr" and a[1][2] == "getresponse" for a in prov.value_alts(t))
+
+    def status_is_200(node, test):
+        if isinstance(test, ast.Compare) and len(test.ops) == 1 and isinstance(test.ops[0], ast.Eq):
+            l, r = test.left, test.comparators[0]
+            for (x, y) in ((l, r), (r, l)):
+                if isinstance(y, ast.Constant) and y.value == 200 and type(y.value) is int and own_status(node, x):
+                    return True
+        return False
     rets = [n for n in g.live_nodes() if n.kind == "return" and n.ast is not None and n.ast.value is not None]
     ck.require(len(rets) == 1, "C19.2", "%s: one value-returning exit" % q.fn(fs), "single return", "found %d value returns" % len(rets), q.loc(fs, fs.node))
     for rn in rets:
         st_tests = [g.nodes[i] for i in d[rn.id] if g.nodes[i].kind == "branch" and "status" in dump(g.nodes[i].test)]
-        okk = len(st_tests) == 1 and st_tests[0].polarity and dump(st_tests[0].test) in ("response.status == 200", "200 == response.status")
+        okk = len(st_tests) == 1 and st_tests[0].polarity and status_is_200(st_tests[0], st_tests[0].test)
         ck.require(okk, "C19.2", "%s: parsed only when status == 200" % q.fn(fs), "`response.status == 200` true edge",
                    "a response is parsed under %s: replies other than 200 (bodiless 2xx, ...) are treated as results instead of raising "
                    "TransportError" % [dump(b.test) + ("" if b.polarity else " [false]") for b in st_tests], q.loc(fs, rn))
@@ -104,11 +118,11 @@ def check(ck):
     ck.require(len(rz) == 1, "C19.2", "%s: raise TransportError" % q.fn(fs), "present", "no TransportError is raised for a non-200 reply", q.loc(fs, fs.node))
     for rn in rz:
         a = rn.ast.exc.args
-        okk = len(a) == 4 and dump(a[0]) == "host + handler" and dump(a[1]) == "response.status"
+        okk = len(a) == 4 and dump(a[0]) == "host + handler" and own_status(rn, a[1])
         ck.require(okk, "C19.2", "%s: TransportError(host + handler, response.status, ...)" % q.fn(fs), "URL and status",
                    "TransportError is raised with `%s`" % [dump(x) for x in a], q.loc(fs, rn))
         # every normal path on the false edge of the status test ends in this raise
-        fb = [n for n in g.live_nodes() if n.kind == "branch" and dump(n.test) in ("response.status == 200",) and not n.polarity]
+        fb = [n for n in g.live_nodes() if n.kind == "branch" and status_is_200(n, n.test) and not n.polarity]
         for b in fb:
             reach = reachable_avoiding(g, b.id, set([rn.id]), lambda l: l != "exc")
             ck.require(g.return_exit.id not in reach, "C19.2", "%s: non-200 paths end in TransportError" % q.fn(fs), "no return on the false edge",
